@@ -369,6 +369,12 @@ def judge(p, specs, obs, fault):
                         if pub['cancel_calls'] == 0:
                             bad('publisher-not-cancelled', iid=iid, endpoint=ep, direction=direction)
                     g = sn['gens'].get(direction)
+                    if g is not None and closed_idx.get(ep) is not None:
+                        late = [e for e in world.events[closed_idx[ep]:] if e['kind'] == 'emit' and e.get('iid') == iid
+                                and e.get('dir') == direction]
+                        if late:
+                            bad('generator-still-producing-after-the-connection-ended', iid=iid, endpoint=ep,
+                                elements_produced_after_on_close=len(late))
                     if g is not None and g['next_calls'] > obs['produced_at_settle'].get((iid, direction), 0):
                         bad('generator-still-producing-after-the-connection-ended', iid=iid, endpoint=ep,
                             produced_at_settle=obs['produced_at_settle'].get((iid, direction)), produced_3s_later=g['next_calls'])
